@@ -206,6 +206,14 @@ pub fn run_family(rep: &mut Report, opts: &Opts, fr: &FamilyRun) {
             let tr = bench::run(&spec, ex, &ro);
             let (findings, seen) = checks::check_trace(&tr, pred.as_ref());
             rep.evaluations += 1;
+            if opts.rest.iter().any(|a| a == "--dump") {
+                for r in &tr.events {
+                    eprintln!("{:>5} t{} {:?}", r.stamp, r.tid, r.ev);
+                }
+                for o in std::iter::once(&tr.init).chain(tr.outcomes.iter()) {
+                    eprintln!("call {} -> {} (t {} -> {}) stamps {}..{}", o.idx as i64, o.res, o.t_before, o.t_after, o.s_call, o.s_ret);
+                }
+            }
             if fr.prop == "C02" && seen.causal_pairs_indirect > 0 && findings.is_empty() && rep.counters.get("oracle_selftest_tampered_logs").copied().unwrap_or(0) < 40 {
                 if let Some(fired) = checks::c02_selftest(&tr) {
                     rep.count("oracle_selftest_tampered_logs", 1);
